@@ -219,8 +219,14 @@ func delegated(b []byte) (d bool) {
 	return false
 }
 
+// mkRec: seeds >= 1000 are <pad>*1000 + <seed below 1000>: the record of the low part with `pad` more bytes in
+// its string field (the encodings of a typed record then have any length one wants, byte-exactly for JSON).
 func mkRec(seed int64) *TestRec {
-	r := &TestRec{S: fmt.Sprintf("s-%d-é\"\\", seed), I: seed * 7919, U8: uint8(seed), B: seed%2 == 0, F: float64(seed) / 4,
+	pad := 0
+	if seed >= 1000 {
+		pad, seed = int(seed/1000), seed%1000
+	}
+	r := &TestRec{S: fmt.Sprintf("s-%d-é\"\\", seed) + strings.Repeat("x", pad), I: seed * 7919, U8: uint8(seed), B: seed%2 == 0, F: float64(seed) / 4,
 		L: []string{"a", fmt.Sprint(seed)}, M: map[string]int{"k": int(seed)}, Blob: []byte{byte(seed), 0, 255}}
 	r.Sub.X = int32(seed)
 	r.Sub.Y = "y"
@@ -236,7 +242,10 @@ func mkRec(seed int64) *TestRec {
 
 // concurrentRoundTrips: n goroutines, each with metadata and payload of its own, serialise typed records and
 // wrappers in a tight loop and parse their own output back. Returns "ok" or the first failure.
-func concurrentRoundTrips(n, iters int, seed int64) string {
+//
+// size > 0: the wrappers' payloads have size-1, size, size+1 bytes (by goroutine), the typed records a JSON encoding
+// of about that size, and every fifth record is a deleted one.
+func concurrentRoundTrips(n, iters int, seed int64, size int) string {
 	var wg sync.WaitGroup
 	start := make(chan struct{})
 	fails := make(chan string, n)
@@ -251,7 +260,7 @@ func concurrentRoundTrips(n, iters int, seed int64) string {
 			}()
 			mk := func(it int) *record.Meta {
 				m := &record.Meta{Created: seed*1000 + int64(g), Modified: int64(g)*7919 + 1, Expires: int64(g%3) * (1700000000 + int64(g)), Deleted: -int64(g % 4 * 60)}
-				if it%17 == 16 {
+				if it%17 == 16 || (size > 0 && it%5 >= 3) {
 					m.Deleted = 1700000000 + int64(g) // now and then a deleted record
 				}
 				if g&1 == 1 {
@@ -263,6 +272,11 @@ func concurrentRoundTrips(n, iters int, seed int64) string {
 				return m
 			}
 			payload := bytes.Repeat([]byte{byte('a' + g%26)}, 1+g*37%300)
+			recSeed := int64(g)
+			if size > 0 {
+				payload = bytes.Repeat([]byte{byte('a' + g%26)}, size+g%3-1)
+				recSeed = int64(size+g%3-1)*1000 + int64(g)
+			}
 			<-start
 			for it := 0; it < iters; it++ {
 				m := mk(it)
@@ -271,7 +285,7 @@ func concurrentRoundTrips(n, iters int, seed int64) string {
 				var err error
 				typed := it%2 == 0
 				if typed {
-					r := mkRec(int64(g))
+					r := mkRec(recSeed)
 					r.SetKey("db:k")
 					r.SetMeta(m)
 					out, err = r.MarshalRecord(r)
@@ -300,7 +314,7 @@ func concurrentRoundTrips(n, iters int, seed int64) string {
 					}
 				case typed:
 					back := &TestRec{}
-					if err := record.Unwrap(w, back); err != nil || !reflect.DeepEqual(exported(back), exported(mkRec(int64(g)))) {
+					if err := record.Unwrap(w, back); err != nil || !reflect.DeepEqual(exported(back), exported(mkRec(recSeed))) {
 						fails <- fmt.Sprintf("FAIL g=%d iter=%d typed record came back different (%v)", g, it, err)
 						return
 					}
@@ -616,6 +630,8 @@ func (e *exec) Do(line string) string {
 		}
 		var inner record.Record
 		switch f[13] {
+		case "3": // a wrapper with a payload of v bytes
+			inner, _ = record.NewWrapper("db:inner", mb, dsd.RAW, bytes.Repeat([]byte{'p'}, v))
 		case "0":
 			t := mkRec(int64(v))
 			t.SetKey("db:inner")
@@ -658,18 +674,33 @@ func (e *exec) Do(line string) string {
 		if err != nil {
 			return "FAIL parse inner: " + err.Error()
 		}
+		if f[13] == "3" {
+			switch {
+			case mb.Deleted > 0 && len(wb.Data) != 0:
+				return fmt.Sprintf("FAIL inner record is deleted and came back with %d bytes of data", len(wb.Data))
+			case mb.Deleted <= 0 && (wb.Format != dsd.RAW || !bytes.Equal(wb.Data, bytes.Repeat([]byte{'p'}, v))):
+				return fmt.Sprintf("FAIL inner record's %d bytes of data came back different (format %d, %d bytes)", v, wb.Format, len(wb.Data))
+			}
+		}
 		return res + " | " + showMeta(wb.Meta())
 	case "conc": // concurrent serialisation: conc <goroutines> <iterations> <seed>
-		if len(f) != 4 {
+		if len(f) != 4 && len(f) != 5 {
 			return "bad-op"
 		}
 		n, err1 := strconv.Atoi(f[1])
 		iters, err2 := strconv.Atoi(f[2])
 		seed, err3 := strconv.ParseInt(f[3], 10, 64)
+		size := 0
+		if len(f) == 5 {
+			var err4 error
+			if size, err4 = strconv.Atoi(f[4]); err4 != nil || size < 2 {
+				return "bad-op"
+			}
+		}
 		if err1 != nil || err2 != nil || err3 != nil || n < 1 || n > 64 {
 			return "bad-op"
 		}
-		return concurrentRoundTrips(n, iters, seed)
+		return concurrentRoundTrips(n, iters, seed, size)
 	case "um": // implementation only: metadata made by CreateMeta/UpdateMeta survive the storage form
 		if len(f) != 9 {
 			return "bad-op"
@@ -1082,6 +1113,12 @@ func generate(r *hxlib.Run, emit func(hxlib.Case)) {
 	}
 	payload = func() []byte {
 		p := basePayload()
+		if rng.Intn(400) == 0 { // rarely a payload at a size threshold, in every stream that takes a payload
+			k := []uint{12, 15, 16}[rng.Intn(3)]
+			p = make([]byte, 1<<k-1+rng.Intn(3))
+			rng.Read(p)
+			r.Count("payload:threshold-size")
+		}
 		if rng.Intn(4) == 0 {
 			p = append(append([]byte{}, dict[rng.Intn(len(dict))]...), p...)
 		}
@@ -1115,6 +1152,163 @@ func generate(r *hxlib.Run, emit func(hxlib.Case)) {
 			lines = append(lines, "held")
 		}
 		emit(hxlib.Case{Lines: lines, NonTrivial: true, Kind: "wrapper-roundtrip"})
+	}
+	typedFormats := []int{dsd.JSON, dsd.JSON, dsd.CBOR, dsd.MsgPack, dsd.YAML, dsd.GenCode, dsd.RAW, dsd.AUTO, 200, 255}
+	dumpWord := func(seed int64, format int) string {
+		d, err := dsd.Dump(mkRecX(seed), uint8(format))
+		if err != nil {
+			return "fail"
+		}
+		return hxlib.Hex(d)
+	}
+	// (a2) payload sizes around the thresholds an implementation plausibly has (page, 15/16/17-bit lengths, 1 MiB):
+	// the model is size-agnostic (wrapper_roundtrip / base_roundtrip quantify over every payload), so a size class the
+	// generator never produces is a region in which nothing ties the code to it. Every stream that serialises is run
+	// at 2^k-1, 2^k, 2^k+1 for k = 12, 15, 16, 17 and at 2^20 (thorough: also 2^20±1, 2^21, 2^22) — wrappers and typed
+	// records × deleted / not deleted × every format.
+	var sizes []int
+	for _, k := range []uint{12, 15, 16, 17} {
+		sizes = append(sizes, 1<<k-1, 1<<k, 1<<k+1)
+	}
+	hugeSizes := []int{1 << 20}
+	if r.Thorough {
+		hugeSizes = []int{1<<20 - 1, 1 << 20, 1<<20 + 1, 1 << 21, 1 << 22}
+	}
+	bigPayload := func(n int) []byte {
+		b := make([]byte, n)
+		switch rng.Intn(3) {
+		case 0:
+			rng.Read(b)
+		case 1:
+			for i := range b {
+				b[i] = byte('a' + i%26)
+			}
+		default: // a JSON document of exactly n bytes
+			copy(b, `{"S":"`)
+			for i := 6; i < n; i++ {
+				b[i] = 'j'
+			}
+			copy(b[n-2:], `"}`)
+		}
+		return b
+	}
+	metaDel := func(deleted bool) []string {
+		m := meta()
+		if deleted {
+			m[3] = []string{"1", "1700000000", "9223372036854775807", strconv.FormatInt(1+rng.Int63(), 10)}[rng.Intn(4)]
+		} else {
+			m[3] = []string{"0", "0", "-1", "-1700000000", strconv.FormatInt(-rng.Int63(), 10)}[rng.Intn(5)]
+		}
+		return m
+	}
+	rot := rng.Intn(1 << 16)
+	sizeCase := func(kind string, n int, lines []string, noModel bool) {
+		r.Count(fmt.Sprintf("payload-size:%d", n))
+		r.Count("size-threshold-stream:" + kind)
+		emit(hxlib.Case{Lines: lines, NonTrivial: true, Kind: "size-threshold:" + kind, NoModel: noModel})
+	}
+	allSizes := append(append([]int{}, sizes...), hugeSizes...)
+	for si, n := range allSizes {
+		huge := n >= 1<<20
+		for fi, fm := range formats {
+			if huge && ((!r.Thorough && fi != (rot+si)%len(formats)) || (r.Thorough && (fi+rot+si)%4 != 0)) {
+				continue // 1 MiB and more: one format per run in the quick tier, a rotating quarter in the thorough tier
+			}
+			for _, deleted := range []bool{true, false} {
+				// round trip
+				line := fmt.Sprintf("mw %s %d %s", strings.Join(metaDel(deleted), " "), fm, hxlib.Hex(bigPayload(n)))
+				lines := []string{line}
+				if enc := ex.Do(line); !strings.HasPrefix(enc, "err") && !strings.HasPrefix(enc, "PANIC") {
+					lines = append(lines, "parse "+enc)
+				}
+				sizeCase("wrapper-roundtrip", n, lines, false)
+			}
+		}
+		fmAt := func(k int) int { return formats[(rot+si+k)%len(formats)] }
+		// public methods: Marshal(AUTO), MarshalRecord and the layout relation between the two, deleted and not
+		for k, deleted := range []bool{true, false} {
+			sizeCase("wrapper-marshal-api", n, []string{fmt.Sprintf("wnew %s %d %s", strings.Join(metaDel(deleted), " "), fmAt(k), hxlib.Hex(bigPayload(n))),
+				"wm 0", "wmr", fmt.Sprintf("wm %d", fmAt(k)), "held"}, false)
+		}
+		// history: a live wrapper is serialised, deleted in place (what Interface.Delete does), serialised, revived,
+		// serialised; and the other way round
+		sizeCase("wrapper-with-history", n, []string{fmt.Sprintf("wnew %s %d %s", strings.Join(metaDel(false), " "), fmAt(2), hxlib.Hex(bigPayload(n))), "wrt",
+			"wset " + strings.Join(metaDel(true), " "), "wrt", "wrt", "wset " + strings.Join(metaDel(false), " "), "wrt", "held"}, false)
+		sizeCase("wrapper-with-history", n, []string{fmt.Sprintf("wnew %s %d %s", strings.Join(metaDel(true), " "), fmAt(3), hxlib.Hex(bigPayload(n))), "wrt",
+			"wset " + strings.Join(metaDel(false), " "), "wrt", "wset " + strings.Join(metaDel(true), " "), "wrt"}, false)
+		// parsed-then-modified: the wrapper comes from NewRawWrapper (small or large), its Data is replaced by a payload
+		// of the size in question / overwritten in place, it is deleted, serialised, revived, serialised
+		{
+			small := []byte("small")
+			first := bigPayload(n)
+			if si%2 == 0 {
+				first = small
+			}
+			if enc := ex.Do(fmt.Sprintf("mw %s %d %s", strings.Join(metaDel(false), " "), fmAt(4)%128, hxlib.Hex(first))); !strings.HasPrefix(enc, "err") && !strings.HasPrefix(enc, "PANIC") {
+				lines := []string{"wparse " + enc, "wrt"}
+				mode := "inplace"
+				if si%2 == 0 {
+					mode = []string{"new", "reuse"}[rng.Intn(2)]
+				}
+				lines = append(lines, "wdata "+mode+" "+hxlib.Hex(bigPayload(n)), "wset "+strings.Join(metaDel(true), " "), "wrt", "wmr",
+					"wset "+strings.Join(metaDel(false), " "), "wrt", fmt.Sprintf("wfmt %d", fmAt(5)%128), "wset "+strings.Join(metaDel(true), " "), "wrt", "held")
+				sizeCase("parsed-then-modified", n, lines, false)
+			}
+		}
+		// typed records whose encoding has that size: round trip on the implementation; MarshalRecord / Marshal compared
+		// with the model (the codec's output is the model's parameter), every format the typed stream uses
+		dumpLen := func(seed int64, fm int) int {
+			d, err := dsd.Dump(mkRec(seed), uint8(fm))
+			if err != nil {
+				return -1
+			}
+			return len(d) - 1
+		}
+		seedFor := func(fm int) int64 { // a seed whose encoding in format fm has n bytes (exactly, if the format allows)
+			low := int64(rng.Intn(1000))
+			pad := int64(n)
+			for try := 0; try < 3; try++ {
+				l := dumpLen(pad*1000+low, fm)
+				if l < 0 || l == n {
+					break
+				}
+				if pad += int64(n - l); pad < 0 {
+					pad = 0
+				}
+			}
+			return pad*1000 + low
+		}
+		for _, deleted := range []bool{true, false} {
+			seed := seedFor(dsd.JSON)
+			m := metaDel(deleted)
+			sizeCase("typed-roundtrip", n, []string{fmt.Sprintf("rt %s %d", strings.Join(m, " "), seed)}, true)
+			js, _ := json.Marshal(mkRec(seed))
+			r.Count(fmt.Sprintf("typed-json-size:%d", len(js)))
+			sizeCase("typed-marshal", n, []string{fmt.Sprintf("mb %s %d@%s", strings.Join(m, " "), seed, hxlib.Hex(js)),
+				fmt.Sprintf("mbr %s %d@%s", strings.Join(metaDel(deleted), " "), seed, dumpWord(seed, dsd.JSON)), "held"}, false)
+			for fi, fm := range typedFormats {
+				if !deleted && !r.Thorough && (huge || (si+fi+rot)%3 != 0) {
+					continue
+				}
+				if huge && ((!r.Thorough && fi != (rot+si)%len(typedFormats)) || (r.Thorough && (fi+rot+si)%4 != 0)) {
+					continue
+				}
+				seed := seedFor(fm)
+				sizeCase("typed-marshal-api", n, []string{fmt.Sprintf("bm %s %d %d@%s", strings.Join(metaDel(deleted), " "), fm, seed, dumpWord(seed, fm))}, false)
+			}
+		}
+		// re-entrant: the inner record is a wrapper of that size, deleted or not
+		for _, deleted := range []bool{true, false} {
+			sizeCase("reentrant-serialisation", n, []string{fmt.Sprintf("rtn %s %s 3 %d", strings.Join(metaDel(false), " "), strings.Join(metaDel(deleted), " "), n)}, true)
+		}
+	}
+	// concurrent: goroutines with payloads of size-1, size, size+1, every fifth record deleted
+	for _, k := range []uint{12, 15, 16, 17, 20} {
+		iters := r.Budget(60, 400)
+		if k == 20 {
+			iters = r.Budget(8, 40)
+		}
+		sizeCase("concurrent-serialisation", 1<<k, []string{fmt.Sprintf("conc %d %d %d %d", []int{4, 8, 16}[rng.Intn(3)], iters, rng.Intn(1000), 1<<k)}, true)
 	}
 	// wrappers with history: serialise, change the metadata in place, serialise again
 	for i := 0; i < r.Budget(1500, 60000); i++ {
@@ -1333,19 +1527,11 @@ func generate(r *hxlib.Run, emit func(hxlib.Case)) {
 	// Marshal / MarshalRecord of typed records: every dsd format (incl. unsupported ones and GenCode, which the
 	// harness schema does not implement), records without metadata, values the JSON codec refuses. The codec's
 	// output is a parameter of the model (computed here with dsd.Dump).
-	typedFormats := []int{dsd.JSON, dsd.JSON, dsd.CBOR, dsd.MsgPack, dsd.YAML, dsd.GenCode, dsd.RAW, dsd.AUTO, 200, 255}
 	metaOrNilWords := func() string {
 		if rng.Intn(6) == 0 {
 			return "nil"
 		}
 		return strings.Join(meta(), " ")
-	}
-	dumpWord := func(seed int64, format int) string {
-		d, err := dsd.Dump(mkRecX(seed), uint8(format))
-		if err != nil {
-			return "fail"
-		}
-		return hxlib.Hex(d)
 	}
 	for i := 0; i < r.Budget(1500, 60000); i++ {
 		seed := int64(rng.Intn(1000))
@@ -1523,7 +1709,7 @@ func (e *execWrap) Do(line string) string {
 func main() {
 	hxlib.Main(&hxlib.Harness{
 		Prop:     "C08",
-		Rule:     "(also: wrappers that come from NewRawWrapper and are then modified — Data replaced by a same-length / other-length new slice, overwritten in place, backing array re-used, through the accessor, Format changed, metadata changed — serialised and parsed again; the Lean model of the serialiser is a pure function, i.e. no state is shared between calls: the re-entrant stream (a record whose JSON encoder serialises another record) and the concurrent stream (2–32 goroutines serialising records with distinct metadata and parsing their own output) tie exactly that purity on the implementation) (also: key accessors of Base as a state machine; Marshal/MarshalRecord of wrappers and typed records through the public methods incl. explicit formats, missing metadata and failing codecs; Unwrap with arbitrary database name/key, every format, valid and invalid payloads, keyed targets; GenCodeMarshal into caller-supplied buffers; CreateMeta/UpdateMeta/Duplicate on the implementation) (also: wrappers with history — metadata changed in place between serialisations; records whose meta section is produced by a real third-party codec or gzip, incl. empty/garbage gzip streams; payloads with a dictionary of meaningful prefixes) structured: metadata tuples from {0,±1,now,±2^31,±2^53,±2^56,2^63-1,-2^63,random int64} × flags × formats (all DSD ids, 127, 128, 200, 255) × payloads (empty, 1 B, JSON, random ≤4 KiB) × deleted or not: MarshalRecord bytes compared byte for byte with the model, NewRawWrapper results field by field, gencode marshal/unmarshal; typed records of the harness schema (round trip checked on the implementation, bytes compared with the model given the JSON payload); keys; malformed: every truncation and single-byte corruption (8 values per position) of up to 40/200 valid encodings, flag bytes 0..255, block length fields at all boundaries incl. 2^63, 2^64-1, version and meta-format bytes, random strings ≤64 B. Non-trivial: everything except keys without a colon; distinct by hash of the op lines.",
+		Rule:     "(also: payload / encoding sizes at implementation thresholds — 2^k-1, 2^k, 2^k+1 for k = 12, 15, 16, 17 and 2^20 (thorough: 2^20±1, 2^21, 2^22) — for wrappers × every format × deleted / not deleted in the round-trip stream, through Marshal/MarshalRecord with the layout relation, in wrappers with history (serialised, deleted in place, serialised, revived), in parsed-then-modified wrappers (Data replaced / overwritten in place by a payload of that size), for typed records whose JSON / CBOR / MsgPack / YAML encoding has that size (round trip on the implementation, Marshal/MarshalRecord bytes against the model), as the inner record of a re-entrant serialisation and in the concurrent stream; 1 in 400 payloads of every other stream has such a size) (also: wrappers that come from NewRawWrapper and are then modified — Data replaced by a same-length / other-length new slice, overwritten in place, backing array re-used, through the accessor, Format changed, metadata changed — serialised and parsed again; the Lean model of the serialiser is a pure function, i.e. no state is shared between calls: the re-entrant stream (a record whose JSON encoder serialises another record) and the concurrent stream (2–32 goroutines serialising records with distinct metadata and parsing their own output) tie exactly that purity on the implementation) (also: key accessors of Base as a state machine; Marshal/MarshalRecord of wrappers and typed records through the public methods incl. explicit formats, missing metadata and failing codecs; Unwrap with arbitrary database name/key, every format, valid and invalid payloads, keyed targets; GenCodeMarshal into caller-supplied buffers; CreateMeta/UpdateMeta/Duplicate on the implementation) (also: wrappers with history — metadata changed in place between serialisations; records whose meta section is produced by a real third-party codec or gzip, incl. empty/garbage gzip streams; payloads with a dictionary of meaningful prefixes) structured: metadata tuples from {0,±1,now,±2^31,±2^53,±2^56,2^63-1,-2^63,random int64} × flags × formats (all DSD ids, 127, 128, 200, 255) × payloads (empty, 1 B, JSON, random ≤4 KiB) × deleted or not: MarshalRecord bytes compared byte for byte with the model, NewRawWrapper results field by field, gencode marshal/unmarshal; typed records of the harness schema (round trip checked on the implementation, bytes compared with the model given the JSON payload); keys; malformed: every truncation and single-byte corruption (8 values per position) of up to 40/200 valid encodings, flag bytes 0..255, block length fields at all boundaries incl. 2^63, 2^64-1, version and meta-format bytes, random strings ≤64 B. Non-trivial: everything except keys without a colon; distinct by hash of the op lines.",
 		Generate: generate,
 		NewExec:  func(*hxlib.Run) hxlib.Exec { return &execWrap{} },
 		Monitor:  monitor,
